@@ -332,7 +332,7 @@ func (x *Exec) specCall(c *SpecCtx, e *Expr) (*Val, error) {
 			cs = append(cs, valEqRaw(cur, old))
 		}
 		return boolVal(tAnd(cs...)), nil
-	case "same", "sameExcept":
+	case "same", "sameExcept", "presame", "presameExcept":
 		// same(p): every field of *p equals its value in the old state; sameExcept(p, f1, f2, ...): all but the named fields
 		if len(e.Args) < 1 {
 			return nil, fmt.Errorf("%s(ptr, fields...)", name)
@@ -374,8 +374,15 @@ func (x *Exec) specCall(c *SpecCtx, e *Expr) (*Val, error) {
 			if skip[f.Name()] {
 				continue
 			}
+			ref := c.old
+			if strings.HasPrefix(name, "pre") {
+				if c.pre == nil {
+					return nil, fmt.Errorf("%s outside a loop clause", name)
+				}
+				ref = c.pre
+			}
 			cur := x.loadObj(c.st, pv.T, pt.Elem(), f.Name(), f.Type())
-			old := x.loadObj(c.old, pv.T, pt.Elem(), f.Name(), f.Type())
+			old := x.loadObj(ref, pv.T, pt.Elem(), f.Name(), f.Type())
 			cs = append(cs, valEqRaw(cur, old))
 		}
 		return boolVal(tAnd(cs...)), nil
